@@ -14,7 +14,8 @@ from mc import core
 LEVEL = "model_checking"
 RULE = (
     "all rooted labelled trees on n nodes (Pruefer sequence x root, edges directed parent->child) x all (n-1)! "
-    "edge listings, each run through toposort_edges and PAFScorer.sorted_edge_inds; a case is non-trivial when "
+    "edge listings, each run through toposort_edges, PAFScorer.sorted_edge_inds and the real group_instances_sample (one animal, every edge matched: "
+    "the order in which the assigner receives the edges is observed and the animal must come back as one complete instance); a case is non-trivial when "
     "n>=3 and the listing is not already parent-first (so the function has to reorder); distinct = distinct (n, tree, listing, api)"
 )
 ASSUMPTIONS = [
@@ -88,6 +89,8 @@ def run_case(n, listing, api):
 
     if api == "toposort":
         return tuple(int(i) for i in toposort_edges([EdgeType(u, v) for u, v in listing]))
+    if api == "grouping":
+        return run_grouping(n, listing)
     # names permuted relative to indices: node index i is called f"n{(i*3+1)%7}"-like unique labels, and
     # part_names is given in index order (that defines the indices), edges by name
     names = [f"p{(5 * i + 2) % 11}" for i in range(n)]
@@ -97,6 +100,53 @@ def run_case(n, listing, api):
     return tuple(int(i) for i in sc.sorted_edge_inds)
 
 
+def run_grouping(n, listing):
+    """The order actually USED for grouping: one animal with one peak per node and every listed edge matched goes through
+    the real group_instances_sample with the scorer's own sorted_edge_inds; the order in which
+    assign_connections_to_instances receives the edge types is observed (harness-side wrapper), and the animal must come
+    back as ONE instance holding all n nodes ("no body part is left ungrouped")."""
+    import numpy as np
+    import torch
+
+    import sleap_nn.inference.paf_grouping as G
+
+    names = [f"p{(5 * i + 2) % 11}" for i in range(n)]
+    sc = G.PAFScorer(part_names=names, edges=[(names[u], names[v]) for u, v in listing], pafs_stride=2)
+    seen = []
+    real = G.assign_connections_to_instances
+
+    def spy(connections, *a, **k):
+        seen.append([(int(et.src_node_ind), int(et.dst_node_ind)) for et in connections.keys()])
+        return real(connections, *a, **k)
+
+    G.assign_connections_to_instances = spy
+    try:
+        m = len(listing)
+        out = G.group_instances_sample(
+            torch.tensor([[3.0 + 7 * i, 5.0 + 3 * i] for i in range(n)]),
+            torch.ones(n),
+            torch.arange(n, dtype=torch.int32),
+            torch.arange(m, dtype=torch.int32),
+            torch.zeros(m, dtype=torch.int32),
+            torch.zeros(m, dtype=torch.int32),
+            torch.ones(m),
+            n,
+            sc.sorted_edge_inds,
+            sc.edge_types,
+            0,
+        )
+    finally:
+        G.assign_connections_to_instances = real
+    inst = np.asarray(out[0])
+    whole = [i for i in range(len(inst)) if not np.isnan(inst[i]).any()]
+    grouped = len(inst) == 1 and len(whole) == 1
+    order = None
+    if seen:
+        idx = {tuple(e): i for i, e in enumerate(listing)}
+        order = tuple(idx.get(e, -1) for e in seen[0])
+    return ("grouping", order, grouped, len(inst))
+
+
 def work(part, shard):
     prev = {}
     for n, tree, root in shard:
@@ -104,7 +154,7 @@ def work(part, shard):
         for listing in itertools.permutations(r):
             listing = list(listing)
             parent_first = check_order(list(range(len(listing))), listing, n) is None
-            for api in ("toposort", "pafscorer"):
+            for api in ("toposort", "pafscorer", "grouping"):
                 # all listings of one tree run consecutively in this process; a case remembers its predecessor so that a
                 # failure caused by state left behind by the previous call can be replayed
                 case = {"n": n, "listing": listing, "api": api}
@@ -125,6 +175,18 @@ def work(part, shard):
                     part.violation(case, f"raised {type(e).__name__}: {e}")
                     continue
                 part.outcome(repr(order))
+                if api == "grouping":
+                    _, used, grouped, ninst = order
+                    err = None
+                    if used is not None:
+                        err = check_order(list(used), listing, n)
+                        if err:
+                            err = f"order in which grouping consumes the edges {used}: {err}"
+                    if err is None and not grouped:
+                        err = f"one animal with all {n} nodes and every edge matched comes back as {ninst} instance(s), not one complete instance"
+                    if err:
+                        part.violation(case, err)
+                    continue
                 err = check_order(list(order), listing, n) if all(isinstance(i, int) for i in order) else str(order)
                 if err:
                     part.violation(case, f"order={order}: {err}")
@@ -160,5 +222,11 @@ def replay(case):
             pass
     listing = [tuple(e) for e in case["listing"]]
     order = run_case(case["n"], listing, case["api"])
+    if case["api"] == "grouping":
+        _, used, grouped, ninst = order
+        err = check_order(list(used), listing, case["n"]) if used is not None else None
+        if err is None and not grouped:
+            err = f"{ninst} instance(s) instead of one complete instance"
+        return {"order_used": used, "grouped_as_one": grouped, "error": err, "violates": err is not None}
     err = check_order(list(order), listing, case["n"])
     return {"order": order, "error": err, "violates": err is not None}
